@@ -289,6 +289,8 @@ def _expand(P, helper, call, target, counter, at):
     a = fn.args
     if a.vararg or a.kwarg or any(isinstance(x, ast.Starred) for x in call.args) or any(k.arg is None for k in call.keywords):
         return None
+    if any(ast.unparse(d) not in ('staticmethod', 'classmethod') for d in fn.decorator_list):
+        return None         # a decorated helper (memoised, context manager, property ..) does not mean what its body says at the call site
     params = [x.arg for x in a.posonlyargs + a.args]
     npos = len(params)
     deco = [ast.unparse(d) for d in fn.decorator_list]
